@@ -13,7 +13,7 @@
   (C02-CASTFLAT = C13-FLAT, C02-LIKE = C20-LIKE, C02-SCANF = C11-FRAME are evaluated here too)
 Not decided: that a rewritten plan computes the same rows; join reordering; column pruning indices."""
 from .framework import RuleResult
-from .mir import Fn, op_const, switch_edges, disc_switches, region_of_edges, adt_variants, promoted_variant
+from .mir import Fn, op_const, switch_edges, disc_switches, region_of_edges, adt_variants, promoted_variant, reach_flags
 
 EXPLANATION = ("Decides the side conditions under which each optimizer rewrite is an equivalence, on every CFG path of the rewrite "
                "(volatility guards, LIMIT barrier for filters, allowed LIMIT moves, preserved-side rule for outer/mark joins, cast-flatten "
@@ -435,10 +435,133 @@ def rule_gsets(facts):
     return r
 
 
+def rule_orall(facts):
+    """join_filter_or: from `(a.x=1 AND b.y=2) OR (a.x=3 AND b.y=4)` the rewrite derives `(a.x=1 OR a.x=3)` per table. That is implied by the
+    OR only if EVERY branch constrains the table; a branch without a predicate on it admits any row of that table."""
+    r = RuleResult("C02-ORALL", "JoinFilterOrRewrite derives a per-table OR predicate only when every OR branch has a predicate on that table "
+                   "(a branch lookup that fails skips the table)", floor=1)
+    recs = facts.fns_matching(lambda i: i.endswith("expr_rewrite::join_filter_or::maybe_rewrite_or"))
+    if not recs:
+        r.missing_anchor("join_filter_or::maybe_rewrite_or")
+        return [r][0]
+    rec = recs[0]
+    fn = Fn(rec)
+    r.functions.add(fn.id)
+    nexts = [c for c in fn.calls() if c.name.endswith("as std::iter::Iterator>::next")]
+    outer = [n for n in nexts if "hash_map::IntoIter" in n.name]
+    if not outer:
+        r.missing_anchor("loop over the first branch's per-table predicates (HashMap::into_iter)")
+        return r
+    outer = outer[0]
+    body = fn.reach(outer.target, avoid_blocks=[outer.bb], threaded=False)
+    news = [c for c in fn.calls() if c.name.endswith("Vec::<T>::new") and fn.dominates(c.bb, outer.bb)]
+    out_locals = {c.dst[0] for c in news}
+    pushes = []
+    for c in fn.calls():
+        if c.bb in body and c.name.endswith("Vec::<T, A>::push") and c.args:
+            o = fn.origin(c.args[0], at=c.bb)
+            if o[0] == "local" and o[1] in out_locals or (o[0] == "call" and o[1] in news):
+                pushes.append(c)
+    if not pushes:
+        r.missing_anchor("push of the derived per-table predicate")
+        return r
+    lookups = [c for c in fn.calls() if c.bb in body and (c.name.endswith("HashMap::<K, V, S, A>::get") or c.name.endswith("HashMap::<K, V, S, A>::contains_key"))]
+    alls = [c for c in fn.calls() if c.bb in body and c.name.endswith("Iterator>::all")]
+    ok = False
+    how = None
+    for lk in lookups:
+        # the failing outcome (None / false) must not reach the push within this iteration
+        for b in range(fn.n):
+            t = fn.term(b)
+            if t[0] != "switch" or t[1][0] not in ("c", "m"):
+                continue
+            src = None
+            for st in fn.bbs[b]["s"]:
+                if st[0] == "a" and st[1] == [t[1][1][0], []] and st[2][0] == "disc" and st[2][1][0] == lk.dst[0]:
+                    src = "disc"
+            if t[1][1] == lk.dst:
+                src = "bool"
+            if not src:
+                continue
+            fail = [tg for v, tg in switch_edges(t) if v == 0]
+            for ft in fail:
+                reach = reach_flags(fn, ft, avoid_blocks=[outer.bb])
+                if all(p.bb not in reach for p in pushes):
+                    ok, how = True, f"{lk.name.rsplit('::', 1)[-1]} failing ⇒ table skipped"
+    for a in alls:
+        for b in range(fn.n):
+            t = fn.term(b)
+            if t[0] == "switch" and t[1][0] in ("c", "m") and t[1][1] == a.dst:
+                for ft in [tg for v, tg in switch_edges(t) if v == 0]:
+                    reach = fn.reach(ft, avoid_blocks=[outer.bb], threaded=False) | {ft}
+                    if all(p.bb not in reach for p in pushes):
+                        ok, how = True, "Iterator::all over the branches"
+    r.call_sites = len(lookups) + len(alls)
+    r.inst({"fn": fn.id, "derived_predicate_pushes": len(pushes), "every_branch_test": how}, ok)
+    if not ok:
+        r.violate(fn.id, "per-table-OR-not-universal", "the per-table OR predicate is pushed on a path where a branch without a predicate on that table "
+                  "does not skip the table (no failing branch lookup / Iterator::all guards the push): the derived filter is stronger than the OR and "
+                  "removes rows that qualify through the unconstrained branch", rec["file"], pushes[0].line)
+    return r
+
+
+def rule_distor(facts):
+    """distributive_or: (c AND r1) OR (c AND r2) OR … = c AND (r1 OR r2 OR …). If some branch consists of common conjuncts only, its remainder
+    is TRUE, so the remaining OR is TRUE and the result is just c. The branch must not simply vanish from the OR."""
+    r = RuleResult("C02-DISTOR", "DistributiveOrRewrite: an OR branch that is completely covered by the common conjuncts makes the residual OR true; "
+                   "the code must record that (it may not just drop the branch and keep the other residuals)", floor=2)
+    recs = facts.fns_matching(lambda i: i.endswith("expr_rewrite::distributive_or::maybe_rewrite_or"))
+    if not recs:
+        r.missing_anchor("distributive_or::maybe_rewrite_or")
+        return r
+    rec = recs[0]
+    fn = Fn(rec)
+    r.functions.add(fn.id)
+    user_vars = {pl[0] for name, pl in rec["vars"]}
+    sites = []
+    for b in range(fn.n):
+        t = fn.term(b)
+        if t[0] != "switch" or t[1][0] not in ("c", "m"):
+            continue
+        o = fn.origin(t[1], at=b)
+        if o[0] != "call":
+            continue
+        if o[1].name.endswith("Vec::<T, A>::len") and t[4] == "usize":
+            # `match new_and_children.len() { 0 => …` inside the loop over the OR children
+            loop_len = any(c.name.endswith("Iterator>::next") and o[1].bb in fn.reach(c.target, avoid_blocks=[c.bb], threaded=False)
+                           and c.bb in fn.reach(o[1].bb, threaded=False) for c in fn.calls() if c.target is not None)
+            if loop_len:
+                for v, tg in switch_edges(t):
+                    if v == 0:
+                        sites.append(("all conjuncts of an AND branch are common", b, tg, t[5]))
+        if o[1].name.endswith("IndexSet::<T, S>::contains") and t[4] == "bool":
+            for v, tg in switch_edges(t):
+                if v is None or v == 1:
+                    sites.append(("a non-AND branch is itself a common conjunct", b, tg, t[5]))
+    if len(sites) < 2:
+        r.missing_anchor("the two places where an OR branch can be fully covered by the common conjuncts")
+        return r
+    for what, sb, tg, ln in sites:
+        region = region_of_edges(fn, [(sb, tg)])
+        effect = False
+        for b in region:
+            for st in fn.bbs[b]["s"]:
+                if st[0] == "a" and st[1][0] in user_vars and not (st[2][0] == "use" and st[2][1][0] == "k" and st[2][1][1].get("ty") == "()"):
+                    effect = True
+            t = fn.term(b)
+            if t[0] == "call":
+                effect = True
+        r.inst({"fn": fn.id, "case": what, "line": ln, "recorded": effect}, effect)
+        if not effect:
+            r.violate(fn.id, f"absorbed-branch:{what}", f"when {what} the branch is dropped from the OR and nothing records it: "
+                      "`a OR (a AND b)` becomes `a AND b` instead of `a` — the optimized filter loses rows", rec["file"], ln)
+    return r
+
+
 def run(ctx):
     facts = ctx["facts"]
     res = [rule_vol_fold(facts), rule_vol_cse(facts), rule_vol_exists(facts), rule_limit(facts), rule_limitpd(facts), rule_outer(facts),
-           rule_gsets(facts)]
+           rule_gsets(facts), rule_orall(facts), rule_distor(facts)]
     # shared clauses
     from . import c13
     res.append(c13.rule_flat(facts))
